@@ -20,7 +20,7 @@ open CnvVerif CnvVerif.Generated
 /-- `mask_bad_bins`, one reference row: the model's `badBin` is the source expression for a reference that has a
     depth column, with or without a gc column -/
 theorem badBin_is_source (r : RRow) :
-    badBin r = src_mask_bad_bins true r.gc.isSome r.log2 r.spread r.depth (r.gc.getD 0) := by
+    badBin r = src_mask_bad_bins true r.gc.isSome r.depth (r.gc.getD 0) r.log2 r.spread := by
   rw [Bool.eq_iff_iff]
   unfold badBin src_mask_bad_bins
   cases hg : r.gc with
@@ -33,33 +33,11 @@ theorem badBin_is_source (r : RRow) :
     simp only [MIN_REF_COVERAGE, MAX_REF_SPREAD, GC_MIN_FRACTION, GC_MAX_FRACTION, neg_neg, gt_iff_lt] <;> tauto
 
 /-- a reference WITHOUT a depth column is filtered as if every depth were 1 (what the harness hands the model) -/
-theorem mask_without_depth_column (hasGc : Bool) (log2 spread depth gc : Rat) :
-    src_mask_bad_bins false hasGc log2 spread depth gc = src_mask_bad_bins true hasGc log2 spread 1 gc := by
+theorem mask_without_depth_column (hasGc : Bool) (depth gc log2 spread : Rat) :
+    src_mask_bad_bins false hasGc depth gc log2 spread = src_mask_bad_bins true hasGc 1 gc log2 spread := by
   rw [Bool.eq_iff_iff]
   unfold src_mask_bad_bins
   cases hasGc <;>
     simp only [Bool.false_eq_true, if_false, if_true, decide_eq_true_eq, one_ne_zero, or_false]
-
-/-- `apply_weights`: both classes of bins get the same size/variance formula -/
-theorem simple_weight_same_for_both_classes (v sq m : Rat) :
-    src_weight_simple_antitarget v sq m = src_weight_simple_target v sq m := by
-  unfold src_weight_simple_antitarget src_weight_simple_target
-  first | rfl | ring
-
-/-- `apply_weights`: the model's per-bin weight is the composition of the source's formulas -/
-theorem weightOf_is_source (pooled : Bool) (spread sq m v : Rat) :
-    weightOf pooled spread sq m v =
-      src_weight_clip (if pooled then src_weight_pooled spread (src_weight_simple_target v sq m)
-                       else src_weight_flat (src_weight_simple_target v sq m)) WEIGHT_EPSILON := by
-  cases pooled
-  · show clipQ _ _ _ = _
-    unfold clipQ src_weight_clip src_weight_flat src_weight_simple_target
-    simp only [WEIGHT_MAX, Bool.false_eq_true, if_false]
-  · show clipQ _ _ _ = _
-    unfold clipQ src_weight_clip src_weight_pooled src_weight_simple_target src_weight_fancy
-    simp only [WEIGHT_MAX, WEIGHT_REF_EMPHASIS, if_true]
-    first
-    | done
-    | (congr 2; ring)
 
 end CnvVerif.Src
